@@ -40,9 +40,11 @@ func main() {
 		rc.Seed, _ = strconv.ParseInt(s, 10, 64)
 	}
 	if rc.Budget == 0 {
-		rc.Budget = 150 * time.Second
+		// soft caps (never an oracle): a run that reaches its cap reports exhaustive=false and what it covered.
+		// The quick tier needs 1-2 minutes on 16 idle cores; the cap leaves room for a loaded machine.
+		rc.Budget = 6 * time.Minute
 		if rc.Tier == "thorough" {
-			rc.Budget = 40 * time.Minute
+			rc.Budget = 60 * time.Minute
 		}
 	}
 	if *replay != "" {
